@@ -75,6 +75,38 @@ fn crowded_recs(rng: &mut Rng, lang: &str, n: usize, corpus: &[Rec], distinct: b
         .collect()
 }
 
+/// The same records and the same final limit, but reached through a life: records arrive in portions, and between
+/// the portions the store answers empty-query and word searches and has its limit lowered, raised and restored.
+fn build_staged(cx: &mut Cx, lang: &'static str, recs: &[Rec], limit: usize, q: &str) -> St {
+    let mut st = St::sentinel(lang, if cx.rng.chance(1, 2) { limit } else { cx.rng.range(1, 3) });
+    let choices = [limit, limit, limit / 2, 1, 2, limit + 2, 0];
+    let mut next = 0usize;
+    while next < recs.len() {
+        match cx.rng.below(6) {
+            0 => {
+                let _ = st.search("");
+            }
+            1 => {
+                let _ = st.search(q);
+            }
+            2 | 3 => st.store.limit = *cx.rng.pick(&choices),
+            _ => {
+                let upto = (next + cx.rng.range(1, (recs.len() / 3).max(1))).min(recs.len());
+                for r in &recs[next..upto] {
+                    st.add(r);
+                }
+                next = upto;
+            }
+        }
+    }
+    if cx.rng.chance(1, 2) {
+        let _ = st.search("");
+    }
+    st.store.limit = limit;
+    cx.count("stores built in stages with searches and limit changes in between");
+    st
+}
+
 /// Families of similar words (shared prefixes, one letter apart): records whose scores depend on
 /// fuzzy matching, where scratch state left by a neighbouring record would show.
 fn similar_recs(rng: &mut Rng, lang: &str, n: usize) -> (Vec<Rec>, Vec<String>) {
@@ -155,23 +187,7 @@ impl Ranking {
             // a freshly built store per configuration; one in four is built in stages instead: some records, an empty-query
             // and a word search under another limit, a limit change, the remaining records, the final limit
             let st = if recs.len() >= 2 && cx.rng.chance(1, 4) {
-                let mut st = St::sentinel(lang, cx.rng.range(1, 3));
-                let cut = cx.rng.range(1, recs.len() - 1);
-                for r in &recs[..cut] {
-                    st.add(r);
-                }
-                let _ = st.search("");
-                let _ = st.search(&q);
-                st.store.limit = cx.rng.below(recs.len() + 2);
-                if cx.rng.chance(1, 2) {
-                    let _ = st.search("");
-                }
-                for r in &recs[cut..] {
-                    st.add(r);
-                }
-                st.store.limit = limit;
-                cx.count("stores built in stages with searches and limit changes in between");
-                st
+                build_staged(cx, lang, &recs, limit, &q)
             } else {
                 St::build_sentinel(lang, &recs, limit)
             };
@@ -404,10 +420,13 @@ impl Ranking {
         }
         let limit = *cx.rng.pick(&[n, n + 1, 10.max(n / 10 + 1), (n + 9) / 10, n.max(3) / 3 + 1]);
         let limit = limit.max((n + 9) / 10); // |store| <= 10*limit
-        let st = St::build_sentinel(lang, &recs, limit);
+        let staged = cx.rng.chance(1, 4);
+        let st = if staged { build_staged(cx, lang, &recs, limit, "") } else { St::build_sentinel(lang, &recs, limit) };
         let unl = St::build_sentinel(lang, &recs, n + 1);
-        for _ in 0..3 {
+        for qk in 0..3 {
             let q = if similar { similar_query(&mut cx.rng, lang, &family) } else { rank_query(&mut cx.rng, lang, &st.store.lang, &recs) };
+            // a store with a past is asked the empty query first (the list its past searches may have cached)
+            let q = if staged && qk == 0 { String::new() } else { q };
             cx.ctx(format!("C07 lang={} recs={:?} limit={} q={:?}", lang, recs, limit, q));
             let base = st.search(&q);
             let all = unl.search(&q);
@@ -742,6 +761,12 @@ impl Ranking {
                 st.store.limit = limit;
                 cx.count("searches after a limit change");
             }
+            // a dip: the limit is lowered for the adds only and is back at its value before the next search
+            let dip = round > 0 && !relimit && cx.rng.chance(1, 3);
+            if dip {
+                st.store.limit = cx.rng.below(limit + 1);
+                cx.count("adds under a temporarily lowered limit");
+            }
             if round > 0 {
                 // history part: further adds on the same store
                 for _ in 0..cx.rng.range(1, 3) {
@@ -750,6 +775,18 @@ impl Ranking {
                     recs.push(r);
                 }
                 cx.count("searches after further adds");
+            }
+            if dip {
+                st.store.limit = limit;
+            }
+            if cx.rng.chance(1, 3) {
+                // a search with words in between changes neither the records nor the limit
+                let w = *cx.rng.pick(&words);
+                let _ = st.search(w);
+                if cx.rng.chance(1, 2) {
+                    let _ = st.search(&w.chars().take(1).collect::<String>());
+                }
+                cx.count("empty-query searches right after a search with words");
             }
             if round > 0 && relimit && !limit_first {
                 limit = if round == 1 { limit0 + cx.rng.range(1, 3) } else { limit0 };
@@ -869,9 +906,9 @@ impl Prop for Ranking {
     fn floors(&self) -> Vec<(&'static str, u64, u64)> {
         match self.0 {
             Which::Verdicts => vec![("truncated (more matches than limit)", 200, 2000), ("beyond the 10x cap (soundness only)", 100, 1000), ("limit 0", 50, 500), ("selection buffer refilled (matches >= 2*limit)", 100, 1000), ("store with tied ratings (set comparison)", 50, 500), ("empty query", 50, 500), ("corpus-store searches", 100, 2000), ("corpus-store searches compared with the unlimited corpus store", 10, 200), ("large stores (limit 50-200)", 400, 8000), ("large stores whose match count is an exact multiple of the limit", 20, 400), ("stores of more than 2048 records", 8, 160), ("stores of 66-260 records", 300, 3000), ("stores built in stages with searches and limit changes in between", 3000, 30000), ("configurations whose reference stores live on threads of their own", 1500, 15000)],
-            Which::Order => vec![("pair stores", 2000, 20000), ("permuted stores", 2000, 20000), ("searches with >= 2 hits", 300, 3000), ("truncated lists compared across permutations", 30, 300), ("stores of similar words", 500, 5000), ("pairs involving a hit ranked 7th or lower", 300, 3000), ("large stores (limit 50-200)", 200, 4000), ("stores of more than 2048 records", 4, 80), ("stores with ratings in [2^31, 2^32)", 200, 2000), ("stores with ratings spread over the whole usize range", 100, 1000), ("configurations whose reference stores live on threads of their own", 200, 2000)],
+            Which::Order => vec![("pair stores", 2000, 20000), ("permuted stores", 2000, 20000), ("searches with >= 2 hits", 300, 3000), ("truncated lists compared across permutations", 30, 300), ("stores of similar words", 500, 5000), ("pairs involving a hit ranked 7th or lower", 300, 3000), ("large stores (limit 50-200)", 200, 4000), ("stores of more than 2048 records", 4, 80), ("stores with ratings in [2^31, 2^32)", 200, 2000), ("stores with ratings spread over the whole usize range", 100, 1000), ("configurations whose reference stores live on threads of their own", 200, 2000), ("stores built in stages with searches and limit changes in between", 300, 3000)],
             Which::Rules => vec![("rule exact>typo", 500, 5000), ("rule both>one", 500, 5000), ("rule prefix: exact>tail", 500, 5000), ("rule adjacent>gap", 500, 5000), ("rule first>second", 500, 5000), ("rule identical titles: rating decides", 300, 3000), ("rule equal rating: shorter title first", 300, 3000), ("rule function word: content word first", 1000, 10000), ("u made of two function words run together", 300, 3000), ("rule cases with a third, unrelated record", 20000, 200000), ("identical titles with ratings 1-3 apart", 1000, 10000), ("tails of 13-70 letters", 500, 5000), ("u tagged with a part of speech that is not a function-word kind", 150, 1500)],
-            Which::Empty => vec![("searches after further adds", 1000, 10000), ("truncated lists with tied ratings", 500, 5000), ("stores with distinct ratings", 500, 5000), ("limit 0", 100, 1000), ("stores of 13-60 records", 1000, 10000), ("stores whose titles share a prefix of 20-40 characters", 1500, 15000), ("stores with adjacent ratings above 2^24", 1000, 10000), ("searches after a limit change", 1000, 10000)],
+            Which::Empty => vec![("searches after further adds", 1000, 10000), ("truncated lists with tied ratings", 500, 5000), ("stores with distinct ratings", 500, 5000), ("limit 0", 100, 1000), ("stores of 13-60 records", 1000, 10000), ("stores whose titles share a prefix of 20-40 characters", 1500, 15000), ("stores with adjacent ratings above 2^24", 1000, 10000), ("searches after a limit change", 1000, 10000), ("adds under a temporarily lowered limit", 1000, 10000), ("empty-query searches right after a search with words", 5000, 50000)],
         }
     }
     fn ratios(&self) -> Vec<(&'static str, &'static str, f64, f64)> {
